@@ -196,6 +196,20 @@ pub fn check_pair(a: &DataType, bb: &DataType) {
     if tname(a) == tname(bb) && !a.is_null() && ab.is_none() {
         viol("ord-totality", &[a, bb], format!("cmp({}, {}) is None inside one type", show(a), show(bb)));
     }
+    // a cast between integer kinds either fails or keeps the mathematical value (no wrap-around, no clamping)
+    let is_int = |v: &DataType| matches!(v, DataType::Int(_) | DataType::BigInt(_) | DataType::UInt(_) | DataType::BigUInt(_));
+    if is_int(a) && is_int(bb) && tname(a) != tname(bb) {
+        if let Ok(c) = a.try_cast(bb.kind()) {
+            report::count("cross_kind_integer_casts_checked", 1);
+            if let (Some(x), Some(y)) = (exact(a), exact(&c)) {
+                if cmp_exact(&x, &y) != Some(Ordering::Equal) || tname(&c) != tname(bb) {
+                    viol("cast-changes-value", &[a, bb], format!("cast({}, kind of {}) = {}", show(a), show(bb), show(&c)));
+                }
+            }
+        } else {
+            report::count("cross_kind_integer_casts_refused", 1);
+        }
+    }
     // numeric comparison agrees with the mathematical value
     if let (Some(x), Some(y)) = (exact(a), exact(bb)) {
         let m = cmp_exact(&x, &y);
